@@ -155,6 +155,11 @@ pub open spec fn tiles_in_tileset(tm: &TilemapData, ts: &Tileset, npixels: int) 
 pub struct LayerFlags { pub bits: u32 }
 impl LayerFlags {
     pub const VISIBLE: LayerFlags = LayerFlags { bits: 1 };
+    /// bitflags-generated: keeps the seven defined bits 0x01..0x40 (TRUSTED)
+    #[verifier::external_body]
+    pub fn from_bits_truncate(bits: u32) -> (r: LayerFlags)
+        ensures r.bits == bits & 0x7f,
+    { unimplemented!() }
     pub fn contains(&self, other: LayerFlags) -> (r: bool)
         ensures r == ((self.bits & other.bits) == other.bits),
     {
@@ -183,4 +188,122 @@ pub open spec fn spec_visible(l: Seq<LayerData>, p: Seq<Option<u32>>, i: int) ->
 /// shim for image::Rgba<u8> (R4)
 #[derive(Clone, Copy, PartialEq, Eq)]
 pub struct Rgba<T>(pub [T; 4]);
+// @end
+
+// @section reader
+/// File-format layout reads (mirror of overlay/spec/fmt.rs): little-endian values at an offset.
+pub open spec fn le_u16(d: Seq<u8>, o: int) -> int { d[o] as int + 256 * (d[o + 1] as int) }
+pub open spec fn le_u32(d: Seq<u8>, o: int) -> int {
+    d[o] as int + 256 * (d[o + 1] as int) + 65536 * (d[o + 2] as int) + 16777216 * (d[o + 3] as int)
+}
+pub open spec fn as_i16(v: int) -> int { if v >= 32768 { v - 65536 } else { v } }
+pub open spec fn as_i32(v: int) -> int { if v >= 2147483648 { v - 4294967296 } else { v } }
+/// UTF-8 validity and decoding of a byte string (uninterpreted: the decoders only pass text through)
+pub uninterp spec fn utf8_ok(b: Seq<u8>) -> bool;
+pub uninterp spec fn utf8_text(b: Seq<u8>) -> Seq<char>;
+/// STRING at offset o: WORD length n, then n bytes
+pub open spec fn str_fits(d: Seq<u8>, o: int) -> bool { o + 2 <= d.len() && o + 2 + le_u16(d, o) <= d.len() }
+pub open spec fn str_bytes(d: Seq<u8>, o: int) -> Seq<u8> { d.subrange(o + 2, o + 2 + le_u16(d, o)) }
+pub open spec fn str_end(d: Seq<u8>, o: int) -> int { o + 2 + le_u16(d, o) }
+
+/// shim for reader::AseReader over an in-memory cursor. Each primitive carries the contract that the Kani
+/// obligations k_reader_prims_* / k_reader_string_* / k_reader_sequence establish for the real reader on
+/// fixed-size cursors (ASSUMED here for every length): value = little-endian read at the cursor, cursor
+/// advances by the width; Err iff fewer bytes remain (or, for strings, the text is not UTF-8).
+#[verifier::external_body]
+pub struct AseReader { _p: core::marker::PhantomData<u8> }
+impl AseReader {
+    pub uninterp spec fn data(&self) -> Seq<u8>;
+    pub uninterp spec fn pos(&self) -> int;
+    #[verifier::external_body]
+    pub fn new(data: &[u8]) -> (r: AseReader)
+        ensures r.data() == data@, r.pos() == 0,
+    { unimplemented!() }
+    #[verifier::external_body]
+    pub fn byte(&mut self) -> (r: Result<u8>)
+        ensures final(self).data() == old(self).data(), 0 <= old(self).pos() <= old(self).data().len(),
+            r is Ok <==> old(self).pos() + 1 <= old(self).data().len(),
+            r is Ok ==> r->Ok_0 == old(self).data()[old(self).pos()] && final(self).pos() == old(self).pos() + 1,
+    { unimplemented!() }
+    #[verifier::external_body]
+    pub fn word(&mut self) -> (r: Result<u16>)
+        ensures final(self).data() == old(self).data(), 0 <= old(self).pos() <= old(self).data().len(),
+            r is Ok <==> old(self).pos() + 2 <= old(self).data().len(),
+            r is Ok ==> r->Ok_0 as int == le_u16(old(self).data(), old(self).pos()) && final(self).pos() == old(self).pos() + 2,
+    { unimplemented!() }
+    #[verifier::external_body]
+    pub fn short(&mut self) -> (r: Result<i16>)
+        ensures final(self).data() == old(self).data(), 0 <= old(self).pos() <= old(self).data().len(),
+            r is Ok <==> old(self).pos() + 2 <= old(self).data().len(),
+            r is Ok ==> r->Ok_0 as int == as_i16(le_u16(old(self).data(), old(self).pos())) && final(self).pos() == old(self).pos() + 2,
+    { unimplemented!() }
+    #[verifier::external_body]
+    pub fn dword(&mut self) -> (r: Result<u32>)
+        ensures final(self).data() == old(self).data(), 0 <= old(self).pos() <= old(self).data().len(),
+            r is Ok <==> old(self).pos() + 4 <= old(self).data().len(),
+            r is Ok ==> r->Ok_0 as int == le_u32(old(self).data(), old(self).pos()) && final(self).pos() == old(self).pos() + 4,
+    { unimplemented!() }
+    #[verifier::external_body]
+    pub fn long(&mut self) -> (r: Result<i32>)
+        ensures final(self).data() == old(self).data(), 0 <= old(self).pos() <= old(self).data().len(),
+            r is Ok <==> old(self).pos() + 4 <= old(self).data().len(),
+            r is Ok ==> r->Ok_0 as int == as_i32(le_u32(old(self).data(), old(self).pos())) && final(self).pos() == old(self).pos() + 4,
+    { unimplemented!() }
+    #[verifier::external_body]
+    pub fn skip_reserved(&mut self, count: usize) -> (r: Result<()>)
+        ensures final(self).data() == old(self).data(), 0 <= old(self).pos() <= old(self).data().len(),
+            r is Ok <==> old(self).pos() + count <= old(self).data().len(),
+            r is Ok ==> final(self).pos() == old(self).pos() + count,
+    { unimplemented!() }
+    #[verifier::external_body]
+    pub fn string(&mut self) -> (r: Result<String>)
+        ensures final(self).data() == old(self).data(), 0 <= old(self).pos() <= old(self).data().len(),
+            r is Ok <==> (str_fits(old(self).data(), old(self).pos()) && utf8_ok(str_bytes(old(self).data(), old(self).pos()))),
+            r is Ok ==> r->Ok_0@ == utf8_text(str_bytes(old(self).data(), old(self).pos())) && final(self).pos() == str_end(old(self).data(), old(self).pos()),
+    { unimplemented!() }
+}
+// @end
+
+// @section layer_flags_only
+/// shim for the bitflags-generated LayerFlags (TRUSTED)
+#[derive(Clone, Copy)]
+pub struct LayerFlags { pub bits: u32 }
+impl LayerFlags {
+    /// keeps the seven defined bits 0x01..0x40
+    #[verifier::external_body]
+    pub fn from_bits_truncate(bits: u32) -> (r: LayerFlags)
+        ensures r.bits == bits & 0x7f,
+    { unimplemented!() }
+}
+// @end
+
+// @section std_extra
+/// assumed contract of std's Option::filter (vstd has none): the result is the argument or None
+pub assume_specification<T, P>[ core::option::Option::<T>::filter ](o: Option<T>, p: P) -> (r: Option<T>)
+    where P: core::ops::FnOnce(&T) -> bool + core::marker::Destruct, T: core::marker::Destruct,
+    ensures r is Some ==> r == o,
+;
+// @end
+
+// @section intmap
+/// shim for nohash::IntMap<u32, V> (a HashMap): abstract view as a map; contracts of default / insert / get / len (TRUSTED)
+#[verifier::external_body]
+#[verifier::reject_recursive_types(K)]
+#[verifier::reject_recursive_types(V)]
+pub struct IntMap<K, V> { _p: core::marker::PhantomData<(K, V)> }
+impl<V> IntMap<u32, V> {
+    pub uninterp spec fn view(&self) -> Map<u32, V>;
+    #[verifier::external_body]
+    pub fn default() -> (r: Self)
+        ensures r@ == Map::<u32, V>::empty(),
+    { unimplemented!() }
+    #[verifier::external_body]
+    pub fn insert(&mut self, k: u32, v: V) -> (r: Option<V>)
+        ensures final(self)@ == old(self)@.insert(k, v),
+    { unimplemented!() }
+    #[verifier::external_body]
+    pub fn get(&self, k: &u32) -> (r: Option<&V>)
+        ensures (r is Some) == self@.contains_key(*k), r is Some ==> *(r->0) == self@[*k],
+    { unimplemented!() }
+}
 // @end
